@@ -28,7 +28,7 @@ try:
   # the script's own directory is sys.path[0]; assertions that pin the sub-agent's worktree path are neutralised
   import re
   src = open(demo).read()
-  src = re.sub(r"^(\s*)assert [^\n]*__file__[^\n]*$", r"\1pass", src, flags=re.M)
+  src = re.sub(r"^([ \t]*)assert [^\n]*__file__[^\n]*?((\\\n)[^\n]*)*$", r"\1pass", src, flags=re.M)
   open(os.path.join(dst, 'demo_seed.py'), 'w').write(src)
   def run_demo():
     r = subprocess.run(['/venv/bin/python', 'demo_seed.py'], cwd=dst, env=env, stdout=subprocess.PIPE, stderr=subprocess.STDOUT, text=True)
